@@ -533,11 +533,17 @@ fn oracle_script(rf: &Ref, script: &str, reqs: &[Req], excepted: &[String], blan
         // permission of the scriptlet itself and of its transitive dependencies
         let need_self = owner.perm;
         let need_closure = rf.closure(owner).iter().fold(0u8, |a, c| a | c.perm);
+        let need_direct = owner.deps.iter().filter_map(|d| rf.lookup(d)).fold(owner.perm, |a, c| a | c.perm);
         if cands.iter().any(|(q, _, _)| subset(need_closure, q.mask)) {
             continue;
         }
         if cands.iter().any(|(q, _, _)| subset(need_closure, union(&q.text))) {
             out.push(Verdict { class: Some("F18_permission_union"), what: format!("{} invoked: it and its dependencies require {:#010b}; no single requesting list was granted that, the per-host union of masks was", owner.name, need_closure) });
+        } else if cands.iter().any(|(q, _, _)| subset(need_self, union(&q.text)))
+            && !cands.iter().any(|(q, _, _)| subset(need_direct, union(&q.text))) {
+            // the gate sits in front of the "already collected" test: a DIRECT dependency is always
+            // gated; the recorded class only concerns what lies below an already collected dependency
+            out.push(Verdict { class: None, what: format!("{} invoked by a rule whose list lacks bits required by one of its DIRECT dependencies (it and they require {:#010b})", owner.name, need_direct) });
         } else if cands.iter().any(|(q, _, _)| subset(need_self, union(&q.text))) {
             out.push(Verdict { class: Some("F25_visited_dependency_skips_gate"), what: format!("{} invoked by a rule whose list lacks bits required by one of its transitive dependencies (closure requires {:#010b}): the dependency had already been collected for another injection, so its subtree was not re-checked", owner.name, need_closure) });
         } else {
